@@ -297,9 +297,12 @@ def generate_pdf(document, target, zoom, **options):
 
     # Anchors
     if pdf_names:
-        # Anchors are name trees that have to be sorted
+        # Anchors are name trees that have to be sorted as they are written:
+        # ASCII byte strings, then UTF-16 strings starting with a BOM
         name_array = pydyf.Array()
-        for anchor in sorted(pdf_names):
+        pdf_names.sort(key=lambda anchor: (
+            not anchor[0].isascii(), anchor[0].encode('utf-16-be')))
+        for anchor in pdf_names:
             name_array.append(pydyf.String(anchor[0]))
             name_array.append(anchor[1])
         dests = pydyf.Dictionary({'Names': name_array})
